@@ -89,7 +89,7 @@ func shapeKey(m *ea.Model) string {
 func opsFor(m *ea.Model, full bool) []string {
 	ops := []string{"Open", "W:0:8", "W:3:2", "SnapU", "SnapA", "Reload", "Grow:1"}
 	if full {
-		ops = append(ops, "Close", "W:8:16", "W:4:8", "Rebuild:t", "Rebuild:f", fmt.Sprintf("SetRev:%d", m.Rev+7), "Recreate")
+		ops = append(ops, "Close", "W:8:16", "W:4:8", "WWO:0:8", "WWO:3:2", "Rebuild:t", "Rebuild:f", fmt.Sprintf("SetRev:%d", m.Rev+7), "Recreate")
 		if len(m.Chain) > 0 {
 			ops = append(ops, fmt.Sprintf("Checkpoint:%d", len(m.Chain)-1))
 		}
@@ -110,12 +110,51 @@ func opsFor(m *ea.Model, full bool) []string {
 			ops = append(ops, fmt.Sprintf("Rm:%d", i))
 		}
 	}
+	for i := 1; i <= len(m.Chain)-2; i++ {
+		if replaceEnabled(m, i) {
+			ops = append(ops, fmt.Sprintf("Replace:%d", i))
+		}
+	}
 	for i := range m.Chain {
 		if i == 0 || i == len(m.Chain)-1 || full {
 			ops = append(ops, fmt.Sprintf("Revert:%d", i))
 		}
 	}
 	return ops
+}
+
+// layerBlocks: the 4 KiB blocks the file of chain member i holds (those that differ from the member below).
+func layerBlocks(m *ea.Model, i int) []bool {
+	img := m.Chain[i].Img
+	var below []uint8
+	if i > 0 {
+		below = m.Chain[i-1].Img
+	}
+	out := make([]bool, len(img)/ea.SPB)
+	for s := range img {
+		var lo uint8
+		if below != nil && s < len(below) {
+			lo = below[s]
+		}
+		if img[s] != lo {
+			out[s/ea.SPB] = true
+		}
+	}
+	return out
+}
+
+// replaceEnabled: ReplaceDisk(target=i-1, source=i) is meaningful without a coalesce step.
+func replaceEnabled(m *ea.Model, i int) bool {
+	if i < 1 || i > len(m.Chain)-2 || m.Chain[i].Retained() || m.Chain[i-1].Retained() {
+		return false
+	}
+	t, s := layerBlocks(m, i-1), layerBlocks(m, i)
+	for b := range t {
+		if t[b] && (b >= len(s) || !s[b]) {
+			return false
+		}
+	}
+	return true
 }
 
 type preState struct {
@@ -150,6 +189,8 @@ var quickPre = []preState{
 	{h("W:0:8 SnapA W:8:8 SnapA W:16:8 SnapA W:24:8 SnapU W:0:16"), false, false},
 	{h("W:0:8 SnapU Grow:1 W:32:8"), false, false},
 	{h("W:4:8 SnapU W:0:32 SnapA"), true, false},
+	// member 1 (s2) holds no block that member 2 (s3) lacks: ReplaceDisk(s2 <- s3) needs no coalesce
+	{h("W:0:8 SnapA SnapA W:0:8 SnapA W:8:8 SnapU"), false, false},
 	// a revert to an inner member leaves a newer USER snapshot (s3) behind as an orphan hanging off an automatic one
 	{h("W:0:8 SnapA W:8:8 SnapA W:0:8 SnapU W:16:8 Revert:1 W:8:8"), false, false},
 	{h("W:0:8 SnapA W:8:8 SnapA W:0:8 SnapU W:16:8 Revert:1 SnapU"), false, false},
@@ -164,7 +205,7 @@ func EnumPairs(tier string, c10 bool) []Pair {
 			panic("bad pre-state history: " + strings.Join(ps.History, " "))
 		}
 		for _, op := range opsFor(m, ps.Full) {
-			if c10 && !(strings.HasPrefix(op, "W:") || strings.HasPrefix(op, "SetRev")) {
+			if c10 && !(strings.HasPrefix(op, "W:") || strings.HasPrefix(op, "WWO:") || strings.HasPrefix(op, "SetRev")) {
 				continue
 			}
 			if op == "Recreate" && len(ps.History) == 0 {
